@@ -1,4 +1,5 @@
 import TfPwaV.Proofs.Topology
+import TfPwaV.Proofs.TopologyDistinct
 /-!
 # C14 — Decay topologies are enumerated and identified correctly
 
@@ -322,6 +323,22 @@ def enumSpec (n : Nat) : Bool :=
     && cs.all roundTrip && cs.all (fun c => (topologyId (fun x : Nat => x) c).isSome)
 
 
+/-- the three parts of `enumSpec`, separately (each is one kernel evaluation for n = 5, see Props/C14N5*.lean) -/
+def enumTreesOK (n : Nat) : Bool :=
+  match fromParticles natMk 0 (finalsN n) with
+  | none => false
+  | some cs => cs.all (isBinaryTree 0 (finalsN n))
+
+def enumDistinctOK (n : Nat) : Bool :=
+  match fromParticles natMk 0 (finalsN n) with
+  | none => false
+  | some cs => allDistinct (cs.map (topologyId (fun x : Nat => x)))
+
+def enumRoundTripOK (n : Nat) : Bool :=
+  match fromParticles natMk 0 (finalsN n) with
+  | none => false
+  | some cs => cs.all roundTrip
+
 theorem enumSpec_2_4 : ∀ n ∈ [2, 3, 4], enumSpec n = true := by decide +kernel
 
 /-- FULL: for every n ≥ 2 and every top / pairwise distinct finals (top not among them), `from_particles`
@@ -332,7 +349,8 @@ returns chains that are binary trees rooted at top with leaf set = finals, with 
 top = 0, finals = 1..n (n = 5, 6 exceed the 60 s / 6 GB budget of one kernel evaluation; they are covered on the
 real code by the exhaustive search of harness/c14.py for n ≤ 6, 7 thorough). Missing: n ≥ 5 at chain level (the
 graph level is `graphs_are_binary_trees`, all n; the count is `fromParticles_count`, all n; pairwise
-distinctness for n ≥ 5 is not proved), and the transfer to other particle labels (the enumeration only tests
+distinctness of the grouping sets is `enumeration_pairwise_distinct`, all n, on the trees — what is missing for
+n ≥ 5 is only the step graph → chain → `sorted_table`, see `topology_id_link_le4_partial`), and the transfer to other particle labels (the enumeration only tests
 vertices for equality; validated by correspondence with seeded names). -/
 theorem enum_le4_partial (n : Nat) (h2 : 2 ≤ n) (h6 : n ≤ 4) :
     ∃ cs, fromParticles natMk 0 (finalsN n) = some cs ∧ cs.length = dfact (2 * n - 3)
@@ -366,6 +384,63 @@ theorem enum_le4_pairwise_different_partial (n : Nat) (h2 : 2 ≤ n) (h6 : n ≤
   have := (sameB_iff (fun x : Nat => x) a b).1 (by simp [sameB, hs])
   obtain ⟨x, h1, h2⟩ := this
   rw [h1, h2]
+
+/-! ## 6. Pairwise different topologies for EVERY n (tree level) -/
+
+/-- ★ For EVERY top and EVERY list of pairwise distinct finals: the enumerated graphs are, position by position,
+full binary trees `gts[i].2` (edge multiset of the graph = the tree hanging under top, leaves = the finals), and
+any two of these (2n-3)!! trees have DIFFERENT sets of final-state groupings (`Tr.SameTopo` = the sets of leaf
+sets below the vertices coincide, i.e. what `topology_id` compares). Proof: removing the last inserted leaf from
+every grouping is a left inverse of insertion (`Tr.isGroup_strip`), insertion on two different edges of one tree
+gives different grouping sets (`Tr.insE_edges_differ`), induction over the insertion sequence. -/
+theorem enumeration_pairwise_distinct {α : Type} [DecidableEq α] (top f : α) (fs : List α)
+    (hnd : (f :: fs).Nodup) :
+    ∃ gts : List (Graph α × Tr α),
+      gts.map Prod.fst = getGraphs (baseGraph top f) fs ∧
+      gts.length = dfact (2 * (f :: fs).length - 3) ∧
+      (∀ gt ∈ gts, gt.1.edges.Perm (gt.2.hang (Node.p top)) ∧ gt.2.leaves.Perm (f :: fs)) ∧
+      gts.Pairwise (fun a b => ¬ a.2.SameTopo b.2) := by
+  have hf := List.nodup_cons.1 hnd
+  have inv : EnumInv top (baseGraph top f) (Tr.leaf f) fs := by
+    refine ⟨?_, ?_, ?_, hf.2, ?_, ?_⟩
+    · simp [baseGraph, Graph.addEdge, Graph.empty, Tr.hang, Tr.edges, Tr.root]
+    · simp [Tr.leaves]
+    · intro x hx hm
+      simp only [Tr.leaves, List.mem_singleton] at hm
+      subst hm; exact hf.1 hx
+    · simp [Tr.labels]
+    · simp [Tr.labels]
+  refine ⟨enumGT top (baseGraph top f) (Tr.leaf f) fs, enumGT_fst top fs _ _, ?_, ?_,
+    enumGT_pairwise top fs _ _ inv⟩
+  · rw [← count_double_factorial top f fs, ← enumGT_fst top fs (baseGraph top f) (Tr.leaf f), List.length_map]
+  · intro gt hgt
+    obtain ⟨h1, h2⟩ := enumGT_inv top fs _ _ inv gt hgt
+    exact ⟨h1.edges, by simpa [Tr.leaves] using h2⟩
+
+-- non-vacuity
+example : ([1, 2, 3] : List Nat).Nodup := by decide
+
+/-- `Tr.SameTopo` in computable form: every grouping of one tree is, as a set, a grouping of the other -/
+theorem sameTopo_iff_groups {α : Type} [DecidableEq α] (t₁ t₂ : Tr α) :
+    t₁.SameTopo t₂ ↔ ∀ S : List α, (∃ g ∈ t₁.groups, ∀ x, x ∈ S ↔ x ∈ g) ↔ (∃ g ∈ t₂.groups, ∀ x, x ∈ S ↔ x ∈ g) := by
+  simp only [Tr.SameTopo, Tr.isGroup_iff_groups]
+
+/-- link tree groupings ↔ `topology_id` of the chain built by `get_decay_chain`: position `i` of the
+enumeration, chain built with the inner names of chain `i`; `topology_id(identical=False)` (sorted list of sorted
+groupings) equals the sorted list of the sorted leaf sets of the tree. -/
+def linkSpec (n : Nat) : Bool :=
+  match finalsN n with
+  | [] => false
+  | f :: fs =>
+    (enumGT 0 (baseGraph 0 f) (Tr.leaf f) fs).zipIdx.all fun gti =>
+      match getDecayChain (natMk gti.2) gti.1.1 0 with
+      | none => false
+      | some c => topologyId (fun x : Nat => x) c == some (isort (gti.1.2.groups.map isort))
+
+/-- FULL: for every n the `topology_id` of the i-th chain of `from_particles` is the sorted grouping set of the
+i-th tree of `enumeration_pairwise_distinct` (hence the ids are pairwise different for every n).
+◐ Kernel-checked for 2 ≤ n ≤ 4 only; the graph → chain → sorted_table step is not proved in general. -/
+theorem topology_id_link_le4_partial : ∀ n ∈ [2, 3, 4], linkSpec n = true := by decide +kernel
 
 /-! ## non-vacuity of the hypotheses used above -/
 
